@@ -475,7 +475,30 @@ class FnView:
         if kind == 'call':
             args = tuple(self.operand_expr(a, i, depth + 1) for a in s['args'])
             return ('call', norm(s['fn']), args, i)
+        if name and self._is_snapshot_of_mut_self(s['rv']):
+            # `let start = self.cursor;` is a snapshot of state that is mutated later: keep the name
+            return ('var', name, ())
         return self.rvalue_expr(s['rv'], i, depth + 1)
+
+    def _is_snapshot_of_mut_self(self, rv):
+        if rv['k'] != 'use' or rv['op']['k'] not in ('copy', 'move'):
+            return False
+        pl = rv['op']['pl']
+        if pl['l'] != 1 or self.argc < 1 or not pl['p']:
+            return False
+        if not self.locals[1]['ty'].startswith('&mut '):
+            return False
+        return self.varnames.get(1) == 'self'
+
+    def phi_defs(self, l):
+        """All definitions (bb, expr) of a multiply-assigned local."""
+        out = []
+        for kind, i, j, s in self.defs().get(l, []):
+            if kind == 'call':
+                out.append((i, ('call', norm(s['fn']), tuple(self.operand_expr(a, i) for a in s['args']), i)))
+            elif s['k'] == 'assign' and not s['lhs']['p']:
+                out.append((i, self.rvalue_expr(s['rv'], i)))
+        return out
 
     def rvalue_expr(self, rv, bb, depth=0):
         k = rv['k']
